@@ -61,6 +61,9 @@ fn main() {
             "C19" | "C20" | "C21" | "C22" => vf_harness::poolcheck::run(&prop, &ctx),
             "C14" => vf_harness::provers::run_c14(&ctx),
             "C15" => vf_harness::provers::run_c15(&ctx),
+            "C16" => vf_harness::artifacts::run_c16(&ctx),
+            "C17" => vf_harness::artifacts::run_c17(&ctx),
+            "C18" => vf_harness::artifacts::run_c18(&ctx),
             "C28" => vf_harness::policy::run_c28(&ctx),
             "C29" => vf_harness::policy::run_c29(&ctx),
             _ => {
